@@ -874,6 +874,9 @@ def check_trace(ck: Checker, M: Model, text: str, tr: Trace, case):
         ctx.count('bind_calls')
     # replace_param_indices + flatten
     for stored, params, code in tr.substs:
+        if not all(math.isfinite(p) for p in params):
+            ctx.count('subst_nonfinite_actual_skipped')     # str(nan) / str(inf) are names, outside the model's assumption
+            continue
         lits, ids = Interner(), Interner()
         try:
             enc = enc_exp(I, stored, lits, ids)
@@ -999,10 +1002,34 @@ def unitary_of(I: Impl, circ):
     return I.np.array(c.get_unitary().numpy)
 
 
-def qiskit_unitary(I: Impl, text: str):
+class LargeAngle(Exception):
+    pass
+
+
+def _max_angle(qc, depth=0) -> float:
+    m = 0.0
+    for inst in qc.data:
+        op = inst.operation
+        for p in op.params:
+            try:
+                m = max(m, abs(float(p)))
+            except Exception:  # noqa
+                pass
+        d = getattr(op, 'definition', None)
+        if d is not None and depth < 6 and op.name not in QELIB:
+            m = max(m, _max_angle(d, depth + 1))
+    return m
+
+
+def qiskit_unitary(I: Impl, text: str, angle_limit=1e4):
+    """reference unitary.  Raises LargeAngle when some rotation angle of the program exceeds angle_limit:
+    sin/cos of a huge argument lose |angle|*2^-52 of absolute accuracy, so two correct implementations may
+    differ by more than the comparison tolerance."""
     from qiskit import qasm2
     from qiskit.quantum_info import Operator
     qc = qasm2.loads(text, custom_instructions=qasm2.LEGACY_CUSTOM_INSTRUCTIONS)
+    if angle_limit is not None and _max_angle(qc) > angle_limit:
+        raise LargeAngle()
     qc.remove_final_measurements(inplace=True)
     qc2 = qc.copy_empty_like()
     for inst in qc.data:
@@ -1201,6 +1228,9 @@ def check_program(ck: Checker, M: Model, text: str, meta, key, compare_qiskit=Tr
         return
     try:
         W = qiskit_unitary(I, text)
+    except LargeAngle:
+        ctx.count('qiskit_skipped_angle_above_1e4')
+        return
     except Exception as e:  # noqa
         ctx.count('qiskit_rejected')
         ctx.cov.setdefault('qiskit_rejected_samples', [])
@@ -1592,7 +1622,7 @@ def run(ctx: vf.Ctx):
         ck.expression(M, text, sem, v, ('expr', text))
         ctx.count('expr_exhaustive_depth2')
     ctx.cov['exhaustive_alphabet'] = 'depth<=2; quick: leaves {2, pi}, + - * ^, unary minus; thorough: leaves {2, 0.5, pi}, + - * / ^, unary minus, redundant parentheses, sin'
-    nexp = ctx.n(3000, 30000) + len(seen)
+    nexp = ctx.n(3000, 60000) + len(seen)
     i = -1
     while len(seen) < nexp:
         i += 1
@@ -1611,7 +1641,7 @@ def run(ctx: vf.Ctx):
     for label, text in DIRECTED_PROGRAMS:
         check_program(ck, M, text, dict(has_reset='reset' in text), ('prog', text))
         ctx.count('program_directed')
-    nprog = ctx.n(300, 3000)
+    nprog = ctx.n(300, 8000)
     # functions the implementation can evaluate; the others (D5: exp, sqrt before the repair) make the whole
     # program fail to decode, so they are used in 8 % of the programs only
     usable = [f for f in FN_STD if f in I.bound and I.fn_text[f] == f]
@@ -1624,7 +1654,7 @@ def run(ctx: vf.Ctx):
         if i < 2:
             ctx.sample(dict(program=text))
     # parenthesis-free programs: must agree with Qiskit even on the unrepaired tree (C17_exp_faithful_current_partial)
-    for i in range(ctx.n(60, 600)):
+    for i in range(ctx.n(60, 1500)):
         text, meta = gen_program(rng, usable, paren_free=True)
         check_program(ck, M, text, meta, ('prog', text))
         ctx.count('program_paren_free')
@@ -1663,7 +1693,7 @@ def run(ctx: vf.Ctx):
         d13 = {'diag', 'st', 'pxz'}
         good = [p for p in pool if p[2] not in d13] + [(U1qPiGate, 'U1qPiGate', 'U1q'), (U1qPi2Gate, 'U1qPi2Gate', 'U1q'),
                                                        (IdentityGate(2), 'IdentityGate(2)', 'identity2')]
-        for i in range(ctx.n(250, 2500)):
+        for i in range(ctx.n(250, 6000)):
             n = rng.randint(1, 5)
             c = gen_rt_circuit(I, rng, good, n, rng.randint(1, 12))
             if rng.random() < 0.15 and c.num_operations >= 2 and n >= 2:
@@ -1697,7 +1727,7 @@ def run(ctx: vf.Ctx):
     ctx.case(('prog', u0))
 
     # ---- (iii) translators ---------------------------------------------------------------------
-    check_translators(ck, ctx.n(25, 300))
+    check_translators(ck, ctx.n(25, 600))
     lap('translators')
 
 
